@@ -14,6 +14,7 @@ import EpgVerif.Model.Imaging
 import EpgVerif.Model.Exchange
 import EpgVerif.Model.Heap
 import EpgVerif.Model.Bind
+import EpgVerif.Model.ATuple
 /-
   Line-protocol driver over the executable model at `K := CF` (DESIGN Appendix A).
   One request per line; floats travel as the decimal of their IEEE-754 bits.
@@ -420,6 +421,17 @@ def step (d : DState) (line : String) : DState × List String :=
            | none => "err"])
   | ["gexpand", mode, nd, sh] =>
       (d, [s!"shape {showShape ((if mode == "append" then Shp.expandAppend else Shp.expandPrepend) nd.toNat! (shapeOfTok sh))}"])
+  | ["atup", op, xs, ys] =>
+      let parse (t : String) : ATuple.T Int := if t == "-" then [] else (t.splitOn ",").map (fun e => if e == "N" then none else some e.toInt!)
+      let showT (t : ATuple.T Int) : String := if t.isEmpty then "tup -" else "tup " ++ ",".intercalate (t.map (fun e => match e with | none => "N" | some v => toString v))
+      let x := parse xs
+      (d, [match op with
+           | "add" => (match ATuple.add x (parse ys) with | some z => showT z | none => "err")
+           | "mul" => (match ATuple.mul x (parse ys) with | some z => showT z | none => "err")
+           | "adds" => showT (ATuple.addScalar x ys.toInt!)
+           | "muls" => showT (ATuple.mulScalar x ys.toInt!)
+           | "neg" => showT (ATuple.neg x)
+           | _ => "bad-op"])
   | "ggrid" :: kdim :: vals => (d, ["grid " ++ " ".intercalate (Shp.getGrid vals kdim.toNat!)])
   | ["gbatch", sh, ndim] => (d, [s!"shape {showShape (Shp.appendBatchAxes (shapeOfTok sh) ndim.toNat!)}"])
   | "bcast" :: shapes =>
